@@ -49,18 +49,21 @@ def gen_case(r):
     return text.encode(), files
 
 
-def run_tool(tool, lst, files):
+def run_tool(tool, lst, files, stale=False):
     d = tempfile.mkdtemp(prefix="c18.", dir=vlib.BUILD)
     try:
         for name, content in files.items():
             if content is not None:
                 open(os.path.join(d, name), "wb").write(content)
         open(os.path.join(d, "filelist.txt"), "wb").write(lst)
+        if stale:
+            # an older, longer README.md is in the way: the new one replaces it completely
+            open(os.path.join(d, "README.md"), "wb").write(b"# stale README of an earlier run\n" * 3000)
         p = subprocess.run([tool, os.path.join(d, "filelist.txt")], stdout=subprocess.PIPE, stderr=subprocess.PIPE, timeout=60)
         readme = os.path.join(d, "README.md")
         if p.returncode == 0 and os.path.exists(readme):
             return "(write %s)" % hx(open(readme, "rb").read()), p.returncode
-        if p.returncode != 0 and not os.path.exists(readme):
+        if p.returncode != 0 and (stale or not os.path.exists(readme)):
             return "(fail)", p.returncode
         return "(inconsistent rc=%d readme=%s)" % (p.returncode, os.path.exists(readme)), p.returncode
     finally:
@@ -102,7 +105,7 @@ def run(ctx):
     ins, outs = [], []
     for lst, files in cases:
         ins.append(oracle_input(lst, files))
-        o, rc = run_tool(tool, lst, files)
+        o, rc = run_tool(tool, lst, files, stale=(len(ins) % 3 == 2))
         outs.append(o)
     exp = ctx.oracle(ins)
     info = {"cases": len(ins), "mismatches": 0}
